@@ -2,6 +2,7 @@ A = "modeling/amplitudechain.py"
 G = "modeling/goofit.py"
 C = "modeling/ampgen2goofit.py"
 MUTANTS = [
+    ("subdecay-cache-on-class", [A, A], ["    final_particles: ClassVar[Particle] = set()\n", "        return cls(**mat)\n"], ["    final_particles: ClassVar[Particle] = set()\n    _subdecays: ClassVar[dict] = {}\n", "        chain = cls(**mat)\n        return chain if \"amp\" in mat else cls._subdecays.setdefault(str(chain), chain)\n"], "C20"),
     ("f8-regression-sets", A, "        cls.all_particles = set()\n        cls.final_particles = set()\n        cls.cartesian = False\n", "        cls.cartesian = False\n", "C20.2"),
     ("f8-regression-cartesian", A, "        cls.all_particles = set()\n        cls.final_particles = set()\n        cls.cartesian = False\n", "        cls.all_particles = set()\n        cls.final_particles = set()\n", "C20.2"),
     ("reset-on-base", A, "        cls.all_particles = set()\n", "        AmplitudeChain.all_particles = set()\n", "C20"),
